@@ -2,7 +2,7 @@
 import json, os
 import vlib
 
-QUICK = dict(Ops='{"fetch", "push", "merge"}', BranchSrc="{2, 4, 6, 7}", BranchDst="{0, 1, 2, 4, 6}", TagSrc="{0, 2, 6}",
+QUICK = dict(Ops='{"fetch", "push", "merge"}', BranchSrc="{1, 2, 4, 6, 7}", BranchDst="{0, 1, 2, 4, 6}", TagSrc="{0, 2, 6}",
              TagDst="{0, 2, 4}", Depths="{0, 1}", TagSpecs='{"none", "plain", "force"}')
 THOROUGH = dict(Ops='{"fetch", "push", "merge"}', BranchSrc="{1, 2, 4, 6, 7}", BranchDst="{0, 1, 2, 3, 4, 6, 7}", TagSrc="{0, 2, 4, 6}",
                 TagDst="{0, 2, 4, 7}", Depths="{0, 1, 2}", TagSpecs='{"none", "plain", "force"}')
